@@ -28,14 +28,29 @@ class NeedSplit(Exception):
 
 class FlowMixin:
     # ------------------------------------------------------------------------------------------------------------ path splits
+    _ENGINE_CACHES = ("_uf_cache", "_win_registry", "_pure_cache", "_read_cache", "_whole_cache", "_ghost_cache", "_count_cache")
+
     def exec_stmt(self, s, st):
+        if getattr(self, "frame_depth", 0) > 0:
+            return super().exec_stmt(s, st)   # inside an inlined callee: the caller's statement is the one to re-execute
         snap = st.fork()
         snap.vars = dict(st.vars)
+        n_ax = len(self.axioms)
+        caches = {}
+        for nm in self._ENGINE_CACHES:
+            c = getattr(self, nm, None)
+            if isinstance(c, dict):
+                caches[nm] = {k: (list(v) if isinstance(v, list) else v) for k, v in c.items()}
         try:
             return super().exec_stmt(s, st)
         except NeedSplit as e:
-            if getattr(self, "frame_depth", 0) > 0:
-                raise   # inside an inlined callee: the caller's statement is the one to re-execute
+            # forget what the aborted attempt added (axioms about arrays and functions of a state that is being discarded)
+            del self.axioms[n_ax:]
+            for nm in self._ENGINE_CACHES:
+                if nm in caches:
+                    setattr(self, nm, caches[nm])
+                elif isinstance(getattr(self, nm, None), dict):
+                    setattr(self, nm, {})
             out = []
             for c in (e.cond, z3.Not(e.cond)):
                 s2 = snap.fork()
@@ -360,19 +375,14 @@ class FlowMixin:
         lam = n.args[0]
         if not isinstance(lam, ast.Lambda):
             raise Unsupported("array_of needs a lambda")
-        key = (id(lam), tuple(self.content_key(v, st) for v in args[1:]))
         cache = getattr(self, "_ghost_cache", None)
         if cache is None:
             cache = self._ghost_cache = {}
-        if key in cache:
-            return cache[key]
         shape = [to_int(x) for x in args[1:]]
         names = [a.arg for a in lam.args.args]
         if len(names) != len(shape):
             raise Unsupported("array_of arity")
-        arr = alloc_array(st, "ghost", "f", shape)
-        arr.name = "ghost"
-        q = [z3.Int(fresh_name("g_" + nm)) for nm in names]
+        q = [z3.Int("gq!%d" % i) for i in range(len(names))]   # canonical bound names: the defining term identifies the array
         saved = dict(self.bound_vars)
         try:
             for nm, v in zip(names, q):
@@ -381,6 +391,11 @@ class FlowMixin:
         finally:
             self.bound_vars = saved
         fv = fl.F(_num(body)) if not isinstance(body, SFloat) else body
+        key = (fv.k.sexpr(), z3.simplify(fv.v).sexpr() if z3.is_expr(fv.v) else str(fv.v), tuple(str(zi(x)) for x in shape))
+        if key in cache:
+            return cache[key]
+        arr = alloc_array(st, "ghost", "f", shape)
+        arr.name = "ghost"
         h = st.heap[arr.cell]
         from .vals import sel as zsel
         inr = z3.And(*[z3.And(x >= 0, x < zi(s_)) for x, s_ in zip(q, shape)])
